@@ -32,6 +32,9 @@ type Vector struct {
 	Label string `json:"label"`
 	// Params are the tier bounds the symbolic run used.
 	Params map[string]int `json:"params"`
+	// Lenient: the vector covers only a prefix of the run (the symbolic executor stopped at a construct it
+	// cannot encode); missing values default to the lowest admissible value.
+	Lenient bool `json:"lenient"`
 }
 
 // Value is one nondeterministic result: Bits is the two's complement / IEEE bit pattern.
@@ -66,7 +69,14 @@ func Load(path string) (*Vector, error) {
 	return v, nil
 }
 
+var defaulted bool // the last pop returned a lenient default
+
 func pop(name string) uint64 {
+	defaulted = false
+	if vec != nil && vec.Lenient && (next >= len(vec.Values) || vec.Values[next].Name != name) {
+		defaulted = true
+		return 0
+	}
 	if vec == nil || next >= len(vec.Values) {
 		panic(Invalid{"replay vector exhausted at " + name})
 	}
@@ -113,6 +123,9 @@ func isF32[T Scalar]() bool {
 // IntRange returns an arbitrary int in [lo,hi].
 func IntRange(name string, lo, hi int) int {
 	x := int(pop(name))
+	if defaulted && lo <= hi {
+		return lo
+	}
 	if x < lo || x > hi {
 		panic(Invalid{"IntRange " + name})
 	}
